@@ -241,9 +241,15 @@ def Blocker.new (rules : List Rule) (optimize : Bool) : Blocker :=
     taggedAll := pick .tagged
     optimize := optimize }
 
+/-- `n.tag.is_some() && self.tags_enabled.contains(n.tag.as_ref().unwrap())` -/
+def tagEnabled (tags : List Str) (n : Rule) : Bool :=
+  match n.tag with
+  | some t => tags.contains t
+  | none => false
+
 /-- `tags_with_set` -/
 def Blocker.tagsWithSet (b : Blocker) (tags : List Str) : Blocker :=
-  let fs := b.taggedAll.filter (fun n => match n.tag with | some t => tags.contains t | none => false)
+  let fs := b.taggedAll.filter (tagEnabled tags)
   { b with tagsEnabled := tags, filtersTagged := Index.build fs b.optimize }
 
 def dedupS (l : List Str) : List Str := l.foldl (fun acc x => if acc.contains x then acc else acc ++ [x]) []
